@@ -264,6 +264,14 @@ func ServeImplicitTLS(raw net.Conn, cfg *Config, id int) *Session {
 			s.drainAfterFailedTLS()
 			return
 		}
+		if cfg.TLSStall {
+			// never answer the ClientHello, hold the connection
+			s.mu.Lock()
+			s.TLSStarted = true
+			s.mu.Unlock()
+			<-s.stop
+			return
+		}
 		tc := tls.Server(rt, cfg.TLS)
 		_ = tc.SetDeadline(time.Now().Add(10 * time.Second))
 		err := tc.Handshake()
@@ -1049,6 +1057,10 @@ type Farm struct {
 	Conns    []*faultio.TrackConn
 	// Wrap lets the caller configure the tracking conn before it is handed to the client.
 	Wrap func(n int, tc *faultio.TrackConn)
+	// ImplicitTLS != nil: the server side speaks TLS from the first byte (Config.TLS must be set) and Dial hands out
+	// tls.Client(<tracking conn>, ImplicitTLS): what a dial function for WithSSL has to return. The handshake runs
+	// inside the client's first Read/Write, on top of the tracking conn.
+	ImplicitTLS *tls.Config
 }
 
 // Dial has the signature of mail.DialContextFunc.
@@ -1094,12 +1106,20 @@ func (f *Farm) dial() (net.Conn, error) {
 	// re-read n under the lock to keep Sessions and Conns aligned
 	n = len(f.Sessions)
 	tc.ID = n
-	sess := Serve(sv, cfg, n)
+	var sess *Session
+	if f.ImplicitTLS != nil {
+		sess = ServeImplicitTLS(sv, cfg, n)
+	} else {
+		sess = Serve(sv, cfg, n)
+	}
 	f.Sessions = append(f.Sessions, sess)
 	f.Conns = append(f.Conns, tc)
 	f.mu.Unlock()
 	if f.Wrap != nil {
 		f.Wrap(n, tc)
+	}
+	if f.ImplicitTLS != nil {
+		return tls.Client(tc, f.ImplicitTLS), nil
 	}
 	return tc, nil
 }
